@@ -338,7 +338,7 @@ def validate(recs, name):
     if not good:
         return {}, 0
     wd = tlc.workdir(name + "-shards")
-    files = write_shards(good, wd, NCPU)
+    files = write_shards(good, wd, max(NCPU, len(good) // 6000 + 1))     # <= ~6000 cases (~20 MB) per TLC
     res = tlc.run_sharded("TraceGraphOps", TRACE_CFG, files, name + "-tlc", heap="2g")
     rej = {}
     distinct = 0
